@@ -6,6 +6,7 @@ import (
 	"maps"
 	"net/http"
 	"os"
+	"path/filepath"
 	"strconv"
 	"strings"
 
@@ -560,20 +561,59 @@ func (r *Runner) Format(rslv resolver.Resolver) error {
 	}
 
 	formatted := formatter.New(r.config.Format).Format(vcl)
-	var w io.Writer
-	if r.config.Format.Overwrite {
-		writeln(cyan, "Formatted %s.", main.Name)
-		fp, err := os.OpenFile(main.Name, os.O_TRUNC|os.O_WRONLY, 0o644)
-		if err != nil {
-			return errors.WithStack(err)
-		}
-		defer fp.Close()
-		w = fp
-	} else {
-		w = os.Stdout
+	if formatted == nil {
+		// The formatter handles files that consist of declarations only
+		return fmt.Errorf("%s: only VCL files that consist of declarations can be formatted", main.Name)
 	}
-	if _, err := io.Copy(w, formatted); err != nil {
+	if !r.config.Format.Overwrite {
+		_, err := io.Copy(os.Stdout, formatted)
 		return err
 	}
+	if err := overwriteFile(main.Name, formatted); err != nil {
+		return err
+	}
+	writeln(cyan, "Formatted %s.", main.Name)
 	return nil
+}
+
+// overwriteFile replaces the contents of the file with what is read from r.
+// The new contents are written to a temporary file in the same directory which is
+// renamed over the target once it is complete, so that the target is never left
+// truncated or half-written when formatting or writing fails on the way.
+func overwriteFile(name string, r io.Reader) (err error) {
+	target, err := filepath.EvalSymlinks(name)
+	if err != nil {
+		return errors.WithStack(err)
+	}
+	info, err := os.Stat(target)
+	if err != nil {
+		return errors.WithStack(err)
+	}
+	// Renaming does not need write permission for the target itself, make sure we have it
+	fp, err := os.OpenFile(target, os.O_WRONLY, 0)
+	if err != nil {
+		return errors.WithStack(err)
+	}
+	fp.Close()
+
+	tmp, err := os.CreateTemp(filepath.Dir(target), "."+filepath.Base(target)+".*.tmp")
+	if err != nil {
+		return errors.WithStack(err)
+	}
+	defer func() {
+		if err != nil {
+			tmp.Close()
+			os.Remove(tmp.Name())
+		}
+	}()
+	if _, err = io.Copy(tmp, r); err != nil {
+		return err
+	}
+	if err = tmp.Chmod(info.Mode().Perm()); err != nil {
+		return err
+	}
+	if err = tmp.Close(); err != nil {
+		return err
+	}
+	return os.Rename(tmp.Name(), target)
 }
